@@ -16,7 +16,8 @@ func structField(n *types.Named, name string) *types.Var {
 		return nil
 	}
 	for i := 0; i < st.NumFields(); i++ {
-		if st.Field(i).Name() == name {
+		// `name` is the field's name on the reference tree
+		if _, n := canonField(n, i); n == name {
 			return st.Field(i)
 		}
 	}
